@@ -77,6 +77,14 @@ def replay(case) -> dict:
         kw["tilt"] = (-60.0, 60.0)
         if cfg["tilt"] == "rotq":
             quat = Rotation.from_quat([1, 1, 0, 3]).as_quat()
+    # argument forms: the sub-volume / template as float64 or as a C-contiguous copy, the limits as a list
+    form = (sum(cfg["d"]) + sum(cfg["lim"]) + len(cfg["mask"])) % 4
+    if form == 1:
+        sub = sub.astype(np.float64)
+    elif form == 2:
+        tmpl = np.ascontiguousarray(tmpl.astype(np.float64))
+    elif form == 3:
+        lim = list(lim)
     model = _models()[cfg["model"]](tmpl, mask, **kw)
     gap = max(case["gap"]) / 100.0
     desc = dict(model=cfg["model"], mask=cfg["mask"], cutoff=cfg["cutoff"], tilt=cfg["tilt"], bg=cfg.get("bg", 0), box=list(shape), lim=cfg["lim"], d=cfg["d"],
